@@ -651,7 +651,9 @@ func maybeAugmentTaprootResolvers(chanType channeldb.ChannelType,
 			if r.htlcResolution.ClaimOutpoint ==
 				htlcRes.ClaimOutpoint {
 
-				r.htlcResolution = htlcRes
+				r.htlcResolution = augmentIncomingResolution(
+					r.htlcResolution, htlcRes,
+				)
 			}
 		}
 	case *htlcSuccessResolver:
@@ -662,10 +664,36 @@ func maybeAugmentTaprootResolvers(chanType channeldb.ChannelType,
 			if r.htlcResolution.ClaimOutpoint ==
 				htlcRes.ClaimOutpoint {
 
-				r.htlcResolution = htlcRes
+				r.htlcResolution = augmentIncomingResolution(
+					r.htlcResolution, htlcRes,
+				)
 			}
 		}
 	}
+}
+
+// augmentIncomingResolution returns the incoming htlc resolution found on disk
+// (which carries the taproot control blocks), while keeping the preimage the
+// restored resolver has learned since. The resolution on disk was written when
+// the channel was closed, at which point the preimage wasn't known yet: it's
+// only ever populated by the incoming contest resolver, and from then on only
+// lives in the resolver's own checkpoint. Without it, a restored success
+// resolver would attempt to claim the htlc with an all-zero preimage.
+func augmentIncomingResolution(restored,
+	onDisk lnwallet.IncomingHtlcResolution) lnwallet.IncomingHtlcResolution {
+
+	if restored.Preimage == lntypes.ZeroHash {
+		return onDisk
+	}
+
+	// Alongside the preimage itself, we keep the restored second-level
+	// success transaction, as the preimage was inserted into its witness.
+	onDisk.Preimage = restored.Preimage
+	if restored.SignedSuccessTx != nil {
+		onDisk.SignedSuccessTx = restored.SignedSuccessTx
+	}
+
+	return onDisk
 }
 
 // relauchResolvers relaunches the set of resolvers for unresolved contracts in
